@@ -214,9 +214,17 @@ impl<'a, 'c> G<'a, 'c> {
             }
             2 => (Expr::Real(*self.c.pick(&REALS)), Ty::Num),
             _ => {
-                if self.c.chance(10) {
-                    // longer than any fixed-size read window an interpreter might use
-                    (Expr::Str("L".repeat(250 + self.c.draw(120))), Ty::Str)
+                if self.c.chance(12) {
+                    // lengths around the boundaries of every plausible length encoding (one byte,
+                    // 7-bit groups, a fixed-size read window), and now and then a really long one
+                    let len = match self.c.draw(8) {
+                        0 => 126 + self.c.draw(5),
+                        1 => 250 + self.c.draw(10),
+                        2 => 16382 + self.c.draw(4),
+                        3 => 62 + self.c.draw(5),
+                        _ => 250 + self.c.draw(120),
+                    };
+                    (Expr::Str("L".repeat(len)), Ty::Str)
                 } else {
                     (Expr::Str(self.c.pick(&STRS).to_string()), Ty::Str)
                 }
